@@ -35,29 +35,6 @@ type multicastProxy struct {
 
 	multicastLock sync.Mutex
 	members       []io.Closer
-	gen           int // 启动次数，标识当前这一轮(从第一个成员加入到最后一个成员离开)
-}
-
-// multicastCycle 是代理在“一轮”中交给流的消费者。
-// 上一轮的消费协程在 StopConsume 之后才异步执行它的 Close；
-// 那时代理可能已经为新成员重新启动，这个迟到的 Close 不能影响新的一轮。
-type multicastCycle struct {
-	proxy *multicastProxy
-	gen   int
-}
-
-func (c *multicastCycle) Consume(p Pack) { c.proxy.Consume(p) }
-
-func (c *multicastCycle) Close() error {
-	proxy := c.proxy
-	proxy.multicastLock.Lock()
-	defer proxy.multicastLock.Unlock()
-
-	if c.gen != proxy.gen { // 属于已经结束的一轮
-		return nil
-	}
-	proxy.close()
-	return nil
 }
 
 func (proxy *multicastProxy) AddMember(m io.Closer) {
@@ -87,8 +64,7 @@ func (proxy *multicastProxy) AddMember(m io.Closer) {
 		}
 
 		proxy.source = stream
-		proxy.gen++
-		proxy.cid = stream.StartConsume(&multicastCycle{proxy: proxy, gen: proxy.gen}, media.RTPPacket,
+		proxy.cid = stream.StartConsume(proxy, media.RTPPacket,
 			"net = rtsp-multicast, "+proxy.multicastIP)
 		proxy.closed = false
 
@@ -161,6 +137,15 @@ func (proxy *multicastProxy) Consume(p Pack) {
 func (proxy *multicastProxy) Close() error {
 	proxy.multicastLock.Lock()
 	defer proxy.multicastLock.Unlock()
+
+	// Close 由某一轮消费的协程在该消费从流上移除之后调用。
+	// 上一轮的协程可能在代理已为新成员重新启动之后才执行到这里：
+	// 只要当前这一轮的消费还登记在流上，这个迟到的 Close 就不属于当前这一轮，不能停止它。
+	if proxy.source != nil {
+		if _, running := proxy.source.GetConsumption(proxy.cid); running {
+			return nil
+		}
+	}
 
 	proxy.close()
 	return nil
